@@ -18,6 +18,7 @@ SPEC (a dict; everything the source does not say itself)
               {"start": text, "end": text2}   the statements from that one to the one starting with `text2`, same block
               {"if_test": text}               the test expression of the `if` statement starting with `text`
               {"within": text, …}             search only inside the compound statement starting with `text`
+              {"lambda_in": text}             the body of the one lambda in the statement starting with `text`
   outs      [(local name, type)]   locals of a fragment that are results (fields of the returned record)
   actions   {call statement text: lean term}, action_type: calls with effects outside the model become entries of
             the trace field `acts : List action_type`
@@ -31,8 +32,8 @@ import textwrap
 
 SUBSET = """statements: assignment / augmented assignment to local names and to places, if/elif/else, return, match on
 constants (value patterns, `|`, `_`), pass, continue (fragments with exits), docstrings, logging.* and print calls
-(dropped), action calls named by the spec, `for i in range(a[, b])` whose body has no return/break/continue (a fold).
-expressions: int/bool/bytes/None literals, names, + - * // % << >> & | ^ ~, unary - and not, comparisons incl. chained,
+(dropped), action calls named by the spec, `<place>.append(x)` on a list place, `for i in range(a[, b])` whose body has no return/break/continue (a fold).
+expressions: int/bool/bytes/None literals, names, + - * // % << >> & | ^ ~, ** with an exponent ≥ 0, unary - and not, comparisons incl. chained,
 and/or on bools, in / not in on lists, sets, dicts and `d.keys()`, len(), x[i] and x[a:b] on bytes, d[k], int(x),
 int("..", base) and bytes.fromhex("..") on literals, int.from_bytes(x, "big"[, signed=False]), int.to_bytes / n.to_bytes
 (k, "big"), bytes concatenation, conditional expressions, `is None` / `is not None` / `is False` / `is True`."""
@@ -280,6 +281,14 @@ class Translator:
             return self.arith(node, a, b, "|||", fun("bor"), a.nn and b.nn)
         if op == "BitXor":
             return self.arith(node, a, b, "^^^", fun("bxor"), a.nn and b.nn)
+        if op == "Pow":
+            if a.lit is not None and b.lit is not None and 0 <= b.lit <= 4096:
+                return self.e_Constant(ast.Constant(value=a.lit ** b.lit), env)       # constant folding, exact
+            if b.typ == "Nat" and a.typ == "Nat":
+                return V(f"({a.term} ^ {b.term})", "Nat", True)
+            if b.nn:
+                return V(f"({self.to_int(a)} ^ {self.to_nat(b)})", "Int", a.nn)
+            self.bad(node, "`**` with an exponent not known to be ≥ 0 (a negative exponent yields a float)")
         if op in ("FloorDiv", "Mod"):
             pos_lit = b.lit is not None and b.lit > 0
             if pos_lit:
@@ -635,7 +644,28 @@ class Translator:
     def s_Continue(self, st, rest, env, frame):
         return frame.cont(env, st)
 
+    def append_call(self, st):
+        """`<place>.append(x)` on a list place of the spec → (place key, argument node)"""
+        c = st.value if isinstance(st, ast.Expr) else None
+        if (isinstance(c, ast.Call) and isinstance(c.func, ast.Attribute) and c.func.attr == "append" and len(c.args) == 1
+                and not c.keywords and self.key(c.func.value) in self.places
+                and self.places[self.key(c.func.value)][2].startswith("List ")):
+            return self.key(c.func.value), c.args[0]
+        return None
+
     def s_Expr(self, st, rest, env, frame):
+        ap = self.append_call(st)
+        if ap is not None:
+            pk, arg = ap
+            v, hs = self.eval(arg, env)
+
+            def inner():
+                cur = self.read_place(pk, env, st)
+                typ = self.places[pk][2]
+                new = V(f"({cur.term} ++ [{self.coerce(v, elem_type(typ), st)}])", typ)
+                env2, line = self.bind(st.value.func.value, new, env, st)
+                return line + "\n" + self.block(rest, env2, frame)
+            return self.with_hoists(hs, env, frame, inner)
         k = self.key(st)
         if k in self.actions:
             env2 = dict(env)
@@ -677,6 +707,8 @@ class Translator:
                 self.assigned(s.body, acc)
             elif isinstance(s, ast.Expr) and self.key(s) in self.actions and "__acts" not in acc:
                 acc.append("__acts")
+            elif self.append_call(s) is not None and ("place", self.append_call(s)[0]) not in acc:
+                acc.append(("place", self.append_call(s)[0]))
         return acc
 
     def try_join(self, c, body, orelse, env, node):
@@ -1010,6 +1042,13 @@ def select(fn, sel, fname):
             raise Untranslatable(fname, fn, f"fragment anchor within={sel['within']!r} matches {len(outer)} statements")
         fn = outer[0]
         sel = {k: v for k, v in sel.items() if k != "within"}
+    if "lambda_in" in sel:
+        # the body of the one lambda expression inside the statement starting with this text (a sort/min key)
+        outer = list({id(s): s for b in blocks_of(fn) for s in b if starts(s, sel["lambda_in"])}.values())
+        lams = [n for o in outer for n in ast.walk(o) if isinstance(n, ast.Lambda)]
+        if len(outer) != 1 or len(lams) != 1:
+            raise Untranslatable(fname, fn, f"fragment anchor lambda_in={sel['lambda_in']!r} matches {len(outer)} statements with {len(lams)} lambdas")
+        return "expr", lams[0].body
     if "if_test" in sel:
         hits = [s for b in blocks_of(fn) for s in b if isinstance(s, ast.If) and starts(s, sel["if_test"])]
         # an `elif` is the sole statement of an `orelse` block and is found once there
